@@ -24,7 +24,12 @@ PIPELINES = {
     "sort": (["--sort-by", "."], False),
     "merge": (["--merge"], False),
     "csv": (["-o", "csv", "--select", ".=v", "--select", "(number? .)=n"], True),
+    "only-oa": (["--only-objects-and-arrays"], True),
+    "only-oa-select": (["--only-objects-and-arrays", "--select", "(size .)=n", "--select", ".=v"], True),
 }
+# string values whose contents look like JSON syntax: a resynchronisation that scans bytes instead of tokens trips over them
+SYNTAX_STRINGS = [b'"see [0] and {}"', b'"tail ["', b'"{"', b'"]"', b'"}"', b'"a,b:c"', b'"\\"[1]\\""', b'"{\\"a\\":1}"', b'"[[["',
+                  b'"null"', b'"-"', b'"1 2 3"', b'"tru"', b'"\\\\"', b'"{\\"k\\":["']
 POLICIES = ("ignore", "stdout", "stderr", "panic")
 # a value cut off by the end of the input: only ever the very last token of a stream
 TRUNCATED = [b'{"a":', b"[1,2", b'"abc', b"tru", b"nul", b"fals", b"-", b"[", b"{", b'{"a"', b'"x\\', b"[1,", b'{"a":1,', b'"\\u12',
@@ -60,7 +65,7 @@ def gen_unit(rng):
     for _ in range(nvalues):
         v = jm.gen_value(rng, 0, 3, NO_ASTRAL)
         t, e = jm.spell(v, rng, None, 0.2)
-        vals.append(t.encode("utf-8"))
+        vals.append(t.encode("utf-8") if rng.random() > 0.15 else rng.choice(SYNTAX_STRINGS))
     gaps = [[] for _ in range(nvalues + 1)]
     for _ in range(rng.choice((0, 1, 1, 2, 3))):
         g = rng.randrange(nvalues + 1)
